@@ -183,7 +183,7 @@ mod dictionary {
     impl Codec for DictionaryCodec {
         /// Decode a sequence of byte slices.
         fn decode<'a>(&'a self, bytes: &'a [u8]) -> &'a [u8] {
-            if let Some(bytes) = self.decode.get(bytes[0].into()) {
+            if let Some(bytes) = bytes.first().and_then(|tag| self.decode.get((*tag).into())) {
                 bytes
             } else {
                 bytes
@@ -206,11 +206,12 @@ mod dictionary {
                 self.bytes += bytes.len();
                 output.push(bytes)
             };
-            // Stats stuff.
-            self.stats.0.insert(bytes.to_owned());
-            let tag = bytes[0];
-            let tag_idx: usize = (tag % 4).into();
-            self.stats.1[tag_idx] |= 1 << (tag >> 2);
+            // Stats stuff. The empty string has no first byte and cannot be a dictionary entry.
+            if let Some(&tag) = bytes.first() {
+                self.stats.0.insert(bytes.to_owned());
+                let tag_idx: usize = (tag % 4).into();
+                self.stats.1[tag_idx] |= 1 << (tag >> 2);
+            }
 
             index
         }
